@@ -11,11 +11,7 @@ from ..core import Ctx
 from ..translate import gen
 
 MODULE = "PyseqmVerif.Properties.C11"
-THEOREMS = [
-    "MDOut.mem_due", "MDOut.due_zero_cadence", "MDOut.due_sorted", "MDOut.due_length",
-    "MDOut.cap_eq_due_length", "MDOut.cap_eq_generated", "MDOut.fresh_stream",
-    "MDOut.uninterrupted_run", "MDOut.uninterrupted_screen",
-]
+from .registry import THEOREMS_C11 as THEOREMS  # noqa: E402
 
 META = {
     "technique": "Lean 4 induction over run-loop steps (model MDOut) + AST-translated _n_timepoints + exhaustive/seeded cadence-lattice correspondence through the real run loop",
